@@ -4,15 +4,51 @@ import json, os
 from lib import vlib
 
 
+CONF_CFG = """CONSTANTS MaxRetx = %d
+  MaxRounds = 99
+  Mode = "any"
+  Buffered = TRUE
+INIT TInit
+NEXT TNext
+INVARIANT NotDone
+CONSTRAINT HW
+POSTCONDITION Post
+CHECK_DEADLOCK FALSE
+"""
+
+
+def strip(l):
+    return dict(l, events=[]) if "events" in l else l
+
+
+def conformance(ctx, wd):
+    """Hook-level conformance: each scenario's merged log (scripted peer + internal events of
+    watchdog() / dwr() / handleDWA) must be a behaviour of spec/WatchdogImpl.tla for its budget."""
+    out = dict(status="conforms", scenarios=0, tlc_states=0, drift=[])
+    for b in sorted(set(l["script"]["budget"] for l in wd)):
+        scen = [dict(case=l["script"], events=l["events"]) for l in wd if l["script"]["budget"] == b and l["events"]]
+        if not scen:
+            continue
+        r = vlib.impl_conformance(ctx, "WatchdogImplTrace", CONF_CFG % b, scen, [("ev", ""), ("k", "")], "wd%d" % b)
+        if r["status"] == "inconclusive":
+            return r
+        out["scenarios"] += r["scenarios"]; out["tlc_states"] += r["tlc_states"]; out["drift"] += r["drift"]
+    out["drift"] = out["drift"][:5]
+    if out["drift"]:
+        out["status"] = "drift"
+    ctx.log("impl conformance: %d scenarios replayed against WatchdogImpl (%d TLC states), %d drifted" % (out["scenarios"], out["tlc_states"], len(out["drift"])))
+    return out
+
+
 def run(ctx):
     quick = ctx.tier == "quick"
     states = trans = 0
-    for mode in ("all", "none", "fail"):
+    for mode in ("all", "none", "fail", "dup"):
         r = vlib.tlc_check(ctx.scratch, "WatchdogImpl", "WatchdogImpl_%s_TRUE.cfg" % mode, workers=2)
         states += r["distinct"]; trans += r["generated"]
     rd = vlib.tlc_check(ctx.scratch, "WatchdogImpl", "WatchdogImpl_all_FALSE.cfg", workers=1, expect_violation="SparesResponsive")
     states += rd["distinct"]; trans += rd["generated"]
-    ctx.log("R1: WatchdogImpl (one-slot ack channel) satisfies WatchdogObs for peers answering all / none / with a failure code; the unbuffered-channel configuration loses an acknowledgement and violates SparesResponsive as it must")
+    ctx.log("R1: WatchdogImpl (one-slot ack channel) satisfies WatchdogObs for peers answering all / none / with a failure code / with duplicated answers; the unbuffered-channel configuration loses an acknowledgement and violates SparesResponsive as it must")
     if ctx.replay:
         cases = [json.load(open(ctx.replay))["case"]]
         g = dict(generated=0, distinct=0)
@@ -29,7 +65,8 @@ def run(ctx):
             raise vlib.Infra("watchdog driver failed: " + p.stderr[-2000:])
         return vlib.read_ndjson(tpath + tag)
     lines = replay(cases, "")
-    bad, st = vlib.tlc_validate(ctx.scratch, "WatchdogTrace", "WatchdogTrace.cfg", lines, timeout=900)
+    bad, st = vlib.tlc_validate(ctx.scratch, "WatchdogTrace", "WatchdogTrace.cfg", [strip(l) for l in lines], timeout=900)
+    conf = conformance(ctx, [l for l in lines if l["ev"] == "wd"])
     ctx.log("R2: %d scripts; R3: %d lines, %d rejected" % (len(cases), len(lines), len(bad)))
     wdbad = [(i, w) for i, w in bad if lines[i]["ev"] == "wd"]
     if wdbad and not ctx.replay:
@@ -37,7 +74,7 @@ def run(ctx):
         confirmed = []
         for i, w in wdbad[:10]:
             l2 = replay([lines[i]["script"]], ".one", dwr=False)
-            b2, _ = vlib.tlc_validate(ctx.scratch, "WatchdogTrace", "WatchdogTrace.cfg", l2, timeout=300)
+            b2, _ = vlib.tlc_validate(ctx.scratch, "WatchdogTrace", "WatchdogTrace.cfg", [strip(l) for l in l2], timeout=300)
             if b2:
                 confirmed.append((i, b2[0][1]))
         ctx.log("re-run in isolation: %d of %d rejections confirmed" % (len(confirmed), len(wdbad[:10])))
@@ -56,10 +93,10 @@ def run(ctx):
     cov = dict(states=states + g["distinct"] + st["distinct"], transitions=trans + g["generated"] + st["generated"],
                traces_validated_against_impl=len(lines), evaluations=len(lines), distinct_nontrivial=len(keys),
                rule="R1: spec/WatchdogImpl.tla (watchdog goroutine with write / select as separate steps, serve goroutine's non-blocking ack, peer) for budget 1, 3 rounds, three peer modes, plus the unbuffered-channel sensitivity configuration; "
-                    "R2: every budget x {answer all, stop after the n-th round, answer only the j-th copy, failing code, silence} x {answer delivered asynchronously, answer handled before the DWR's transport write returns}; "
+                    "R2: every budget x {answer all, answer all twice, stop after the n-th round, answer only the j-th copy, failing code, silence} x {answer delivered asynchronously, answer handled before the DWR's transport write returns}; "
                     "replayed on a real sm.Client (WatchdogInterval 60 ms, RetransmitInterval 30 ms) with a count-driven peer; server half: DWRs with boundary identifiers, with/without Origin-State-Id, to a handshaken server state machine. every script is non-trivial; distinct by script",
                samples=[dict(script=l["script"], obs=l["obs"]) for l in wd[0:len(wd):max(1, len(wd) // 3)]][:3],
-               exhaustive=True, rejected=len(bad), known_finding_hits={k: n for k, (n, _) in v.hits.items()})
+               exhaustive=True, rejected=len(bad), impl_conformance=conf, known_finding_hits={k: n for k, (n, _) in v.hits.items()})
     rc = v.finish()
     vlib.write_evidence("C13", ctx.tier, ctx.seed, cov, ctx.wall(), v.nviol,
                         ["time is abstracted in the model (the retransmission timer fires only when no answer is pending)", "spacing is checked one-sidedly from monotonic stamps",
